@@ -296,4 +296,35 @@ for it in range(N):
         except Exception as e:
             bad('mapping operation crashed: %s %s' % (type(e).__name__, e), **case); break
     if len(samples) < 2: samples.append({'doc': text, 'ops': ops})
+# ---- fourteenth round (unconditional): the mapping's set is reached through a NAME bound more than once on the way (nested `with`s, an outer let above
+# an assert / lambda / parentheses and an inner let or with): doc[key], doc[key] = v and del doc[key] operate on the set Nix's scoping names — the
+# innermost binding — and the text shows it there (expected texts written down, compared modulo white space)
+NAMED_MAPS = [
+    ('with { cfg = { a = 1; }; }; with { cfg = { b = 2; }; }; cfg', 'b', 2, 'a', 'with { cfg = { a = 1; }; }; with { cfg = { b = 2; zz = 9; }; }; cfg', 'with { cfg = { a = 1; }; }; with { cfg = { }; }; cfg'),
+    ('with { cfg = 1; }; with { cfg = { b = 2; }; }; cfg', 'b', 2, 'a', 'with { cfg = 1; }; with { cfg = { b = 2; zz = 9; }; }; cfg', 'with { cfg = 1; }; with { cfg = { }; }; cfg'),
+    ('let cfg = { a = 1; }; in assert true; with { cfg = { b = 2; }; }; cfg', 'b', 2, 'a', 'let cfg = { a = 1; }; in assert true; with { cfg = { b = 2; zz = 9; }; }; cfg', 'let cfg = { a = 1; }; in assert true; with { cfg = { }; }; cfg'),
+    ('let cfg = { a = 1; }; in (let cfg = { b = 2; }; in cfg)', 'b', 2, 'a', 'let cfg = { a = 1; }; in (let cfg = { b = 2; zz = 9; }; in cfg)', 'let cfg = { a = 1; }; in (let cfg = { }; in cfg)'),
+    ('let cfg = { a = 1; }; in { z }: let cfg = { b = 2; }; in cfg', 'b', 2, 'a', 'let cfg = { a = 1; }; in { z }: let cfg = { b = 2; zz = 9; }; in cfg', 'let cfg = { a = 1; }; in { z }: let cfg = { }; in cfg'),
+    ('with { cfg = { a = 1; }; }; with { other = { b = 2; }; }; cfg', 'a', 1, 'b', 'with { cfg = { a = 1; zz = 9; }; }; with { other = { b = 2; }; }; cfg', 'with { cfg = { }; }; with { other = { b = 2; }; }; cfg'),
+]
+sq_ = lambda t: ' '.join(t.split())
+for text_, key_, val_, absent_, after_set_, after_del_ in NAMED_MAPS:
+    count('named-map')
+    if text_.startswith('let cfg = { a = 1; }; in (let cfg') or text_.startswith('let cfg = { a = 1; }; in { z }: let cfg'):
+        # listed (F-64): below a parenthesis / lambda wrapper of an outer let the inner let's re-binding is not consulted; matched by its exact symptom, anything else is reported
+        try: parse(text_ + '\n')[key_]; bad('F-64 no longer shows: doc[key] finds the innermost binding (remove the finding)', doc=text_)
+        except KeyError: count('listed/F-64')
+        except Exception as ex_: bad('mapping access through a name bound twice raises %s: %s' % (type(ex_).__name__, ex_), doc=text_)
+        continue
+    try:
+        d_ = parse(text_ + '\n'); got_ = d_[key_]; got_ = getattr(got_, 'value', got_)
+        if got_ != val_: bad('doc[key] through a name bound twice does not read the innermost binding', doc=text_, key=key_, got=repr(got_), expected=val_)
+        try: d_[absent_]; bad('doc[key] finds a key of the SHADOWED set', doc=text_, key=absent_)
+        except KeyError: pass
+        d_['zz'] = 9
+        if sq_(d_.rebuild()) != sq_(after_set_): bad('doc[key] = v through a name bound twice is written into another set', doc=text_, key='zz', out=d_.rebuild(), expected=after_set_)
+        d2_ = parse(text_ + '\n'); del d2_[key_]
+        if sq_(d2_.rebuild()) != sq_(after_del_): bad('del doc[key] through a name bound twice removes from another set', doc=text_, key=key_, out=d2_.rebuild(), expected=after_del_)
+    except Exception as ex_:
+        bad('mapping access through a name bound twice raises %s: %s' % (type(ex_).__name__, ex_), doc=text_)
 print(json.dumps({'evaluations': sum(dist.values()), 'distinct': len(dist), 'distribution': dist, 'violations': viol[:6], 'n_violations': len(viol), 'samples': samples}, default=str))
